@@ -118,12 +118,13 @@ impl Property for Univ {
     fn cases(&self, tier: Tier) -> u64 {
         let q = match self.id {
             "C01" => 300_000,
-            "C08" => 300_000,
+            "C07" | "C08" => 1_000_000,
+            "C17" | "C18" => 600_000,
             _ => 200_000,
         };
         match tier {
             Tier::Quick => q,
-            Tier::Thorough => q * 20,
+            Tier::Thorough => q * if q >= 600_000 { 8 } else { 20 },
         }
     }
     fn generate(&self, s: &mut Src) -> Case {
